@@ -265,21 +265,8 @@ def _atoms_polys(v):
     return out
 
 
-def run(ctx, repo, tier):
-    for nb_ctx in ("sym", "one") + ((2, 3) if tier == "thorough" else ()):
-        for prop in GETTERS:
-            analyse(ctx, repo, prop, nb_ctx)
-    # ------------------------------------------------------------ the three getters select their property
-    fgci = repo.cls(FG, "FullGrid")
-    for prop, g in GETTERS.items():
-        m = fgci.find_method(g)
-        if m is None:
-            raise AnalysisError(f"anchor vanished: FullGrid.{g}")
-        ctx.analysed(m)
-        vals = [k.value.value for n in ast.walk(m.node) if isinstance(n, ast.Call) and isinstance(n.func, ast.Attribute) and
-                n.func.attr == "_get_N_N" for k in n.keywords if k.arg == "sel_property" and isinstance(k.value, ast.Constant)]
-        ctx.instance("DISPATCH")
-        ctx.check(vals == [prop], "DISPATCH", f"C02.getter.{g}", f"{g} selects property {prop!r}", m.where, witness=str(vals))
+def volumes_check(ctx, repo, pid="C02"):
+    """6D volumes: cell order pos*n_b + rot and value = position volume * f^3 * rotation volume (shared with C14)"""
     # ------------------------------------------------------------ volumes
     hooks = GeoHooks(repo, n_b, n_o, n_t, bounds={"n_b": 4, "n_o": 4, "n_t": 2}, b_alg="cube4D", o_alg="ico")
     interp = Interp(repo, hooks, max_depth=20)
@@ -308,9 +295,9 @@ def run(ctx, repo, tier):
         ok = ok and uses_rot_inner
         plain = isinstance(val, Num) or (T._is_pw(val) and all(isinstance(p_.items[2], Num) for p_ in val.args))
         if not plain and not ok:
-            ctx.inconclusive("LAYOUT", "C02.volumes.layout", "volume element has a form the layout rule does not read", vw, witness=vstr(val)[:300])
+            ctx.inconclusive("LAYOUT", f"{pid}.volumes.layout", "volume element has a form the layout rule does not read", vw, witness=vstr(val)[:300])
         else:
-          ctx.check(ok, "LAYOUT", "C02.volumes.layout", "volumes are listed position-major, rotation-minor: index pos*n_b + rot (same cell "
+          ctx.check(ok, "LAYOUT", f"{pid}.volumes.layout", "volumes are listed position-major, rotation-minor: index pos*n_b + rot (same cell "
                   "order as the matrices and the grid array)", vw, "for o_rot in pos_volumes: for b_rot in ori_volumes:",
                     witness=f"loop extents (major -> minor): {[e_.pretty() for e_ in exts]}; rotation index is the fastest: {uses_rot_inner}")
         lo, li_ = nest[0], last
@@ -331,7 +318,7 @@ def run(ctx, repo, tier):
             same = exp is not None and vkey(exp) == vkey(val)
             ctx.instance("DEG")
             if same:
-                ctx.ok("DEG", "C02.volumes.value", "6D volume = position-cell volume * f^3 * rotation-cell volume", vw, derived=vstr(val)[:200])
+                ctx.ok("DEG", f"{pid}.volumes.value", "6D volume = position-cell volume * f^3 * rotation-cell volume", vw, derived=vstr(val)[:200])
             else:
                 r_ = contains_top(val)
                 fp = set()
@@ -343,7 +330,7 @@ def run(ctx, repo, tier):
                         for p in v.args:
                             collect(p.items[2])
                 collect(val)
-                (ctx.inconclusive if r_ else ctx.violate)("DEG", "C02.volumes.value", "6D volume is not position volume * f^3 * rotation "
+                (ctx.inconclusive if r_ else ctx.violate)("DEG", f"{pid}.volumes.value", "6D volume is not position volume * f^3 * rotation "
                                                           "volume", vw, "all_volumes.append(o_rot*(self.factor**3)*b_rot)",
                                                           witness=r_ or f"factor powers found {sorted(map(str, fp))}; derived {vstr(val)[:250]}")
         elif ok:
@@ -358,15 +345,33 @@ def run(ctx, repo, tier):
                         collect2(p.items[2])
             collect2(val)
             ctx.instance("DEG")
-            ctx.check(fp == {Fraction(3)}, "DEG", "C02.volumes.value", "6D volume carries the metric factor to the third power", vw,
+            ctx.check(fp == {Fraction(3)}, "DEG", f"{pid}.volumes.value", "6D volume carries the metric factor to the third power", vw,
                       witness=f"factor powers {sorted(map(str, fp))}")
     else:
         r_ = contains_top(vol)
-        ctx.inconclusive("LAYOUT", "C02.volumes.layout", "volume list not derived as a product loop", vw, witness=r_ or vstr(vol)[:300])
+        ctx.inconclusive("LAYOUT", f"{pid}.volumes.layout", "volume list not derived as a product loop", vw, witness=r_ or vstr(vol)[:300])
     bcalls = [c for c in hooks.geo_calls if c[0] == "B" and c[1].endswith("get_voronoi_volumes")]
     ctx.instance("FLOW")
-    ctx.check(len(bcalls) >= 1, "FLOW", "C02.volumes.rotsource", "rotation-cell volumes come from the rotation grid's Voronoi model", vw,
+    ctx.check(len(bcalls) >= 1, "FLOW", f"{pid}.volumes.rotsource", "rotation-cell volumes come from the rotation grid's Voronoi model", vw,
               witness=str([c[1] for c in hooks.geo_calls]))
+
+
+def run(ctx, repo, tier):
+    for nb_ctx in ("sym", "one") + ((2, 3) if tier == "thorough" else ()):
+        for prop in GETTERS:
+            analyse(ctx, repo, prop, nb_ctx)
+    # ------------------------------------------------------------ the three getters select their property
+    fgci = repo.cls(FG, "FullGrid")
+    for prop, g in GETTERS.items():
+        m = fgci.find_method(g)
+        if m is None:
+            raise AnalysisError(f"anchor vanished: FullGrid.{g}")
+        ctx.analysed(m)
+        vals = [k.value.value for n in ast.walk(m.node) if isinstance(n, ast.Call) and isinstance(n.func, ast.Attribute) and
+                n.func.attr == "_get_N_N" for k in n.keywords if k.arg == "sel_property" and isinstance(k.value, ast.Constant)]
+        ctx.instance("DISPATCH")
+        ctx.check(vals == [prop], "DISPATCH", f"C02.getter.{g}", f"{g} selects property {prop!r}", m.where, witness=str(vals))
+    volumes_check(ctx, repo, "C02")
     # ------------------------------------------------------------ the rotation block's fold
     check_fold(ctx, repo, "C02")
     ctx.require_instances("LAYOUT", 20, "layout obligations")
